@@ -1,6 +1,638 @@
-//! Independent parser of table / index / ref-count files (C14). Filled in later.
-use crate::exec::Exec;
+//! Independent parser of table / index / ref-count files (C14).
+//!
+//! Nothing here calls into parity-db: the file formats are re-implemented from the layout
+//! comments in table.rs / index.rs / ref_count.rs / btree. Run at drained points (no overlay
+//! holds data), after clean reopen and after recovery.
 
-pub fn check_dir(_dir: &str, _ex: &Exec) -> Vec<(String, String)> {
-	Vec::new()
+use crate::exec::Exec;
+use crate::gen::SIZES;
+use crate::simdisk::{read_sparse, Shadow, PAGE};
+use crate::world::*;
+use std::collections::{BTreeMap, HashMap, HashSet};
+
+const MULTIPART_ENTRY_SIZE: usize = 4096;
+const META_SIZE: u64 = 16 * 1024;
+const CHUNK_LEN: u64 = 512;
+
+pub struct TableView {
+	pub tier: u8,
+	pub entry_size: usize,
+	data: Vec<u8>,
+	pub filled: u64,
+	pub last_removed: u64,
+}
+
+impl TableView {
+	pub fn raw_entry(&self, idx: u64) -> Option<&[u8]> {
+		self.entry(idx)
+	}
+	fn entry(&self, idx: u64) -> Option<&[u8]> {
+		let off = idx as usize * self.entry_size;
+		if off + self.entry_size > self.data.len() {
+			return None
+		}
+		Some(&self.data[off..off + self.entry_size])
+	}
+}
+
+fn is_tomb(e: &[u8]) -> bool {
+	e[0] == 0xff && e[1] == 0xff
+}
+fn is_multipart(e: &[u8]) -> bool {
+	e[0] == 0xfe && e[1] == 0xff
+}
+fn is_multihead(e: &[u8]) -> bool {
+	(e[0] == 0xfd && e[1] == 0xff) || (e[0] == 0xfd && e[1] == 0x7f)
+}
+
+fn u64le(b: &[u8]) -> u64 {
+	u64::from_le_bytes(b[..8].try_into().unwrap())
+}
+
+pub fn load_tables(dir: &str, col: usize) -> BTreeMap<u8, TableView> {
+	let mut out = BTreeMap::new();
+	for tier in 0..=255u8 {
+		let path = format!("{}/table_{:02}_{:02x}", dir, col, tier);
+		let Ok(data) = std::fs::read(&path) else { continue };
+		let entry_size = if tier == 255 { MULTIPART_ENTRY_SIZE } else { SIZES[tier as usize] as usize };
+		if data.len() < 16 {
+			continue
+		}
+		let last_removed = u64le(&data[0..8]);
+		let mut filled = u64le(&data[8..16]);
+		if filled == 0 {
+			filled = 1;
+		}
+		out.insert(tier, TableView { tier, entry_size, data, filled, last_removed });
+	}
+	out
+}
+
+/// Decoded stored value (structure only).
+pub struct Stored {
+	pub rc: u32,
+	pub key26: Option<Vec<u8>>,
+	pub payload: Vec<u8>,
+	pub compressed: bool,
+	pub slots: Vec<(u8, u64)>,
+}
+
+/// Read the value chain starting at (tier, idx).
+pub fn read_stored(
+	tables: &BTreeMap<u8, TableView>,
+	tier: u8,
+	idx: u64,
+	has_key: bool,
+	has_rc: bool,
+) -> Result<Stored, String> {
+	let t = tables.get(&tier).ok_or_else(|| format!("address names missing table tier {tier:02x}"))?;
+	if idx == 0 || idx >= t.filled {
+		return Err(format!("slot {idx} of tier {tier:02x} is outside 1..{}", t.filled))
+	}
+	let e = t.entry(idx).ok_or_else(|| format!("slot {idx} of tier {tier:02x} beyond file end"))?;
+	if is_tomb(e) {
+		return Err(format!("slot {idx} of tier {tier:02x} is a tombstone"))
+	}
+	if is_multipart(e) {
+		return Err(format!("slot {idx} of tier {tier:02x} is a continuation part, not a head"))
+	}
+	let hdr = if has_rc { 4 } else { 0 } + if has_key { 26 } else { 0 };
+	let mut slots = vec![(tier, idx)];
+	if tier == 255 && is_multihead(e) {
+		let compressed = e[1] == 0x7f;
+		let mut next = u64le(&e[2..10]);
+		let mut off = 10;
+		let rc = if has_rc {
+			let r = u32::from_le_bytes(e[off..off + 4].try_into().unwrap());
+			off += 4;
+			r
+		} else {
+			1
+		};
+		let key26 = if has_key {
+			let k = e[off..off + 26].to_vec();
+			off += 26;
+			Some(k)
+		} else {
+			None
+		};
+		let mut payload = e[off..].to_vec();
+		let mut guard = 0;
+		loop {
+			guard += 1;
+			if guard > 100_000 {
+				return Err("multipart chain does not terminate".into())
+			}
+			if next == 0 || next >= t.filled {
+				return Err(format!("multipart chain points to slot {next} outside 1..{}", t.filled))
+			}
+			let p = t.entry(next).ok_or_else(|| "chain beyond file end".to_string())?;
+			if is_tomb(p) {
+				return Err(format!("multipart chain of head {idx} runs into tombstone {next}"))
+			}
+			if slots.contains(&(tier, next)) {
+				return Err(format!("multipart chain of head {idx} is cyclic at {next}"))
+			}
+			slots.push((tier, next));
+			if is_multipart(p) {
+				payload.extend_from_slice(&p[10..]);
+				next = u64le(&p[2..10]);
+			} else {
+				let size = (u16::from_le_bytes([p[0], p[1]]) & 0x7fff) as usize;
+				if 2 + size > p.len() {
+					return Err(format!("last part {next} has size {size} beyond the entry"))
+				}
+				payload.extend_from_slice(&p[2..2 + size]);
+				break
+			}
+		}
+		return Ok(Stored { rc, key26, payload, compressed, slots })
+	}
+	let sz = u16::from_le_bytes([e[0], e[1]]);
+	let compressed = sz & 0x8000 != 0;
+	let size = (sz & 0x7fff) as usize;
+	if size < hdr || 2 + size > e.len() {
+		return Err(format!("slot {idx} of tier {tier:02x}: size field {size} inconsistent (header {hdr}, entry {})", e.len()))
+	}
+	let mut off = 2;
+	let rc = if has_rc {
+		let r = u32::from_le_bytes(e[off..off + 4].try_into().unwrap());
+		off += 4;
+		r
+	} else {
+		1
+	};
+	let key26 = if has_key {
+		let k = e[off..off + 26].to_vec();
+		off += 26;
+		Some(k)
+	} else {
+		None
+	};
+	let payload = e[off..2 + size].to_vec();
+	Ok(Stored { rc, key26, payload, compressed, slots })
+}
+
+/// Free list + slot classification for one table. Returns (free set, findings).
+fn check_free_list(col: usize, t: &TableView, out: &mut Vec<(String, String)>) -> HashSet<u64> {
+	let mut free = HashSet::new();
+	if t.last_removed >= t.filled {
+		out.push((
+			"free-list-out-of-range".into(),
+			format!("col {col} tier {:02x}: header last_removed {} >= filled {}", t.tier, t.last_removed, t.filled),
+		));
+		return free
+	}
+	let mut next = t.last_removed;
+	while next != 0 {
+		if next >= t.filled {
+			out.push((
+				"free-list-out-of-range".into(),
+				format!("col {col} tier {:02x}: free list reaches slot {next} >= filled {}", t.tier, t.filled),
+			));
+			break
+		}
+		if !free.insert(next) {
+			out.push(("free-list-cyclic".into(), format!("col {col} tier {:02x}: free list visits slot {next} twice", t.tier)));
+			break
+		}
+		let Some(e) = t.entry(next) else {
+			out.push(("free-list-out-of-range".into(), format!("col {col} tier {:02x}: free slot {next} beyond file end", t.tier)));
+			break
+		};
+		if !is_tomb(e) {
+			out.push((
+				"free-list-live-slot".into(),
+				format!("col {col} tier {:02x}: free list contains slot {next} which is not a tombstone", t.tier),
+			));
+			break
+		}
+		next = u64le(&e[2..10]);
+	}
+	for idx in 1..t.filled {
+		if let Some(e) = t.entry(idx) {
+			if is_tomb(e) && !free.contains(&idx) {
+				out.push((
+					"slot-leaked".into(),
+					format!("col {col} tier {:02x}: slot {idx} is a tombstone but not on the free list (neither live nor free)", t.tier),
+				));
+				break
+			}
+		}
+	}
+	free
+}
+
+// -- index files ------------------------------------------------------------------------------
+
+pub struct IndexView {
+	pub bits: u8,
+	sparse: Shadow,
+}
+
+pub fn load_indexes(dir: &str, col: usize) -> Vec<IndexView> {
+	let mut v = Vec::new();
+	for bits in 16..=40u8 {
+		let path = format!("{}/index_{:02}_{}", dir, col, bits);
+		if std::path::Path::new(&path).exists() {
+			v.push(IndexView { bits, sparse: read_sparse(&path) });
+		}
+	}
+	v
+}
+
+impl IndexView {
+	/// All non-empty entries: (chunk, slot, partial_key, tier, offset)
+	pub fn entries(&self) -> Vec<(u64, u8, u64, u8, u64)> {
+		let mut out = Vec::new();
+		let addr_bits = self.bits as u32 + 6 + 8;
+		let mut pages: Vec<&u64> = self.sparse.pages.keys().collect();
+		pages.sort();
+		for p in pages {
+			let base = *p * PAGE as u64;
+			let pg = &self.sparse.pages[p];
+			for i in 0..(PAGE / 8) {
+				let off = base + (i * 8) as u64;
+				if off < META_SIZE {
+					continue
+				}
+				let v = u64le(&pg[i * 8..i * 8 + 8]);
+				if v == 0 {
+					continue
+				}
+				let rel = off - META_SIZE;
+				let chunk = rel / CHUNK_LEN;
+				let slot = ((rel % CHUNK_LEN) / 8) as u8;
+				let address = v & ((1u64 << addr_bits) - 1);
+				let pk = v >> addr_bits;
+				out.push((chunk, slot, pk, (address & 0xff) as u8, address >> 8));
+			}
+		}
+		out
+	}
+	fn chunk(&self, chunk: u64) -> Vec<u64> {
+		let mut out = Vec::with_capacity(64);
+		for i in 0..64u64 {
+			let off = META_SIZE + chunk * CHUNK_LEN + i * 8;
+			let p = off / PAGE as u64;
+			let v = match self.sparse.pages.get(&p) {
+				Some(pg) => u64le(&pg[(off % PAGE as u64) as usize..]),
+				None => 0,
+			};
+			out.push(v);
+		}
+		out
+	}
+	/// Addresses of candidate entries for a hashed key.
+	pub fn lookup(&self, hash: &[u8; 32]) -> Vec<(u8, u64)> {
+		let prefix = u64::from_be_bytes(hash[0..8].try_into().unwrap());
+		let chunk = prefix >> (64 - self.bits as u32);
+		let addr_bits = self.bits as u32 + 6 + 8;
+		let pk = (prefix << self.bits) >> addr_bits;
+		let mut out = Vec::new();
+		for v in self.chunk(chunk) {
+			if v != 0 && (v >> addr_bits) == pk {
+				let address = v & ((1u64 << addr_bits) - 1);
+				out.push(((address & 0xff) as u8, address >> 8));
+			}
+		}
+		out
+	}
+}
+
+pub fn hash_key(key: &[u8], salt: &[u8; 32], uniform: bool) -> [u8; 32] {
+	let mut k = [0u8; 32];
+	if uniform {
+		if salt == &[0u8; 32] {
+			k.copy_from_slice(&key[..32]);
+			return k
+		}
+		use siphasher::sip128::Hasher128;
+		use std::hash::Hasher;
+		let mut h = siphasher::sip128::SipHasher13::new_with_key(salt[..16].try_into().unwrap());
+		h.write(key);
+		let r = h.finish128();
+		k[0..8].copy_from_slice(&r.h1.to_le_bytes());
+		k[8..16].copy_from_slice(&r.h2.to_le_bytes());
+		k[16..].copy_from_slice(&key[16..32]);
+	} else {
+		use blake2::digest::{typenum::U32, FixedOutput, Update};
+		let mut ctx = blake2::Blake2bMac::<U32>::new_with_salt_and_personal(salt, &[], &[]).unwrap();
+		ctx.update(key);
+		k.copy_from_slice(&ctx.finalize_fixed());
+	}
+	k
+}
+
+// -- btree ------------------------------------------------------------------------------------
+
+struct BtreeWalk<'a> {
+	tables: &'a BTreeMap<u8, TableView>,
+	has_rc: bool,
+	reached: HashSet<(u8, u64)>,
+	keys: Vec<Vec<u8>>,
+	leaf_depths: HashSet<u32>,
+	errors: Vec<String>,
+	nodes: u64,
+}
+
+impl<'a> BtreeWalk<'a> {
+	fn node(&mut self, addr: u64, level: u32, depth: u32) {
+		if self.errors.len() > 3 || self.nodes > 200_000 {
+			return
+		}
+		self.nodes += 1;
+		let (tier, off) = ((addr & 0xff) as u8, addr >> 8);
+		let st = match read_stored(self.tables, tier, off, false, self.has_rc) {
+			Ok(s) => s,
+			Err(e) => {
+				self.errors.push(format!("btree node at {tier:02x}:{off}: {e}"));
+				return
+			},
+		};
+		for s in &st.slots {
+			if !self.reached.insert(*s) {
+				self.errors.push(format!("btree slot {:02x}:{} is used twice", s.0, s.1));
+			}
+		}
+		let p = &st.payload;
+		let mut pos = 0usize;
+		let mut children: Vec<u64> = Vec::new();
+		let mut seps: Vec<(u64, Vec<u8>)> = Vec::new();
+		loop {
+			if pos + 8 > p.len() {
+				break
+			}
+			children.push(u64le(&p[pos..]));
+			pos += 8;
+			if children.len() == 9 {
+				break
+			}
+			if pos == p.len() {
+				break
+			}
+			if pos + 9 > p.len() {
+				self.errors.push(format!("btree node at {tier:02x}:{off}: unaligned separator"));
+				return
+			}
+			let val = u64le(&p[pos..]);
+			pos += 8;
+			let head = p[pos];
+			pos += 1;
+			let klen = if head == 255 {
+				if pos + 4 > p.len() {
+					self.errors.push("btree node: cannot read key size".into());
+					return
+				}
+				let l = u32::from_le_bytes(p[pos..pos + 4].try_into().unwrap()) as usize;
+				pos += 4;
+				l
+			} else {
+				head as usize
+			};
+			if pos + klen > p.len() {
+				self.errors.push("btree node: key beyond entry".into());
+				return
+			}
+			let key = p[pos..pos + klen].to_vec();
+			pos += klen;
+			if val == 0 {
+				break
+			}
+			seps.push((val, key));
+		}
+		let is_leaf = level == depth;
+		if is_leaf {
+			self.leaf_depths.insert(level);
+			if children.iter().any(|c| *c != 0) {
+				self.errors.push(format!("btree leaf at {tier:02x}:{off} (level {level}) has a child pointer"));
+			}
+		}
+		for i in 0..=seps.len() {
+			if !is_leaf {
+				let c = children.get(i).cloned().unwrap_or(0);
+				if c == 0 {
+					self.errors.push(format!(
+						"btree inner node at {tier:02x}:{off} (level {level} of depth {depth}) lacks child {i} of {}",
+						seps.len() + 1
+					));
+				} else {
+					self.node(c, level + 1, depth);
+				}
+			}
+			if i < seps.len() {
+				let (val, key) = &seps[i];
+				self.keys.push(key.clone());
+				let (vt, vo) = ((val & 0xff) as u8, val >> 8);
+				match read_stored(self.tables, vt, vo, false, self.has_rc) {
+					Ok(s) =>
+						for sl in &s.slots {
+							if !self.reached.insert(*sl) {
+								self.errors.push(format!("btree value slot {:02x}:{} is used twice", sl.0, sl.1));
+							}
+						},
+					Err(e) => self.errors.push(format!("btree value of key {}: {e}", hex(&key[..key.len().min(8)]))),
+				}
+			}
+		}
+	}
+}
+
+// -- entry point ------------------------------------------------------------------------------
+
+pub fn check_dir(dir: &str, ex: &Exec) -> Vec<(String, String)> {
+	let mut out: Vec<(String, String)> = Vec::new();
+	let salt = ex.cfg.salt();
+	for col in 0..ex.col_kinds.len() {
+		let kind = ex.col_kinds[col];
+		let tables = load_tables(dir, col);
+		let mut free: HashMap<u8, HashSet<u64>> = HashMap::new();
+		for (tier, t) in &tables {
+			free.insert(*tier, check_free_list(col, t, &mut out));
+		}
+		if !out.is_empty() {
+			return out
+		}
+		let has_rc = kind.is_rc() || matches!(kind, ColKind::Tree { rc_roots: true, .. });
+		if kind.is_tree() {
+			crate::treeops::structural(dir, ex, col, &tables, &free, &mut out);
+			continue
+		}
+		if kind.is_btree() {
+			// header at slot 1 of tier 0
+			let hdr = match read_stored(&tables, 0, 1, false, has_rc) {
+				Ok(h) => h,
+				Err(e) => {
+					out.push(("btree-header".into(), format!("col {col}: btree header unreadable: {e}")));
+					continue
+				},
+			};
+			if hdr.payload.len() < 12 {
+				out.push(("btree-header".into(), format!("col {col}: btree header too short")));
+				continue
+			}
+			let root = u64le(&hdr.payload[0..8]);
+			let depth = u32::from_le_bytes(hdr.payload[8..12].try_into().unwrap());
+			let mut w = BtreeWalk {
+				tables: &tables,
+				has_rc,
+				reached: HashSet::new(),
+				keys: Vec::new(),
+				leaf_depths: HashSet::new(),
+				errors: Vec::new(),
+				nodes: 0,
+			};
+			w.reached.insert((0, 1));
+			if root != 0 {
+				w.node(root, 0, depth);
+			}
+			for e in w.errors.iter().take(2) {
+				out.push(("btree-structure".into(), format!("col {col}: {e}")));
+			}
+			if !w.errors.is_empty() {
+				continue
+			}
+			if w.keys.windows(2).any(|p| p[0] >= p[1]) {
+				out.push(("btree-unsorted".into(), format!("col {col}: keys of the on-disk tree are not strictly ascending in in-order traversal")));
+			}
+			if w.leaf_depths.len() > 1 || (root != 0 && !w.leaf_depths.contains(&depth)) {
+				out.push((
+					"btree-depth".into(),
+					format!("col {col}: leaves found at levels {:?}, header records depth {depth}", w.leaf_depths),
+				));
+			}
+			if let ColModel::Kv(m) = &ex.cur[col] {
+				let want: Vec<&Vec<u8>> = m.map.keys().collect();
+				if want.len() != w.keys.len() || want.iter().zip(w.keys.iter()).any(|(a, b)| **a != *b) {
+					out.push((
+						"btree-keys".into(),
+						format!("col {col}: on-disk tree holds {} keys, model has {}", w.keys.len(), want.len()),
+					));
+				}
+			}
+			// every live slot must be reachable
+			'outer: for (tier, t) in &tables {
+				for idx in 1..t.filled {
+					if let Some(e) = t.entry(idx) {
+						if !is_tomb(e) && !w.reached.contains(&(*tier, idx)) {
+							out.push((
+								"slot-unreachable".into(),
+								format!("col {col} tier {tier:02x}: slot {idx} is neither free nor reachable from the btree root (leaked node or value)"),
+							));
+							break 'outer
+						}
+					}
+				}
+			}
+			continue
+		}
+		// hash key-value column
+		let indexes = load_indexes(dir, col);
+		let uniform = kind == ColKind::HashUniform;
+		// (a) every index entry: collect addresses; classify leftovers
+		let mut addressed: HashSet<(u8, u64)> = HashSet::new();
+		for ix in &indexes {
+			for (_chunk, _slot, _pk, tier, off) in ix.entries() {
+				addressed.insert((tier, off));
+			}
+		}
+		// (b) every live slot: decode heads, mark chain parts
+		let mut in_chain: HashSet<(u8, u64)> = HashSet::new();
+		let mut live_heads: Vec<(u8, u64, Stored)> = Vec::new();
+		for (tier, t) in &tables {
+			for idx in 1..t.filled {
+				let Some(e) = t.entry(idx) else { continue };
+				if is_tomb(e) || is_multipart(e) {
+					continue
+				}
+				if *tier == 255 && !is_multihead(e) {
+					// single entry or last part: decided after chains are walked
+					continue
+				}
+				match read_stored(&tables, *tier, idx, true, has_rc) {
+					Ok(s) => {
+						for sl in s.slots.iter().skip(1) {
+							if !in_chain.insert(*sl) {
+								out.push(("slot-double-used".into(), format!("col {col}: slot {:02x}:{} belongs to two value chains", sl.0, sl.1)));
+							}
+						}
+						live_heads.push((*tier, idx, s));
+					},
+					Err(e) => out.push(("value-chain".into(), format!("col {col}: {e}"))),
+				}
+			}
+		}
+		if let Some(t) = tables.get(&255) {
+			for idx in 1..t.filled {
+				let Some(e) = t.entry(idx) else { continue };
+				if is_tomb(e) || is_multihead(e) {
+					continue
+				}
+				if is_multipart(e) {
+					if !in_chain.contains(&(255, idx)) {
+						out.push((
+							"slot-leaked".into(),
+							format!("col {col} tier ff: continuation part {idx} is not part of any live value chain and not free"),
+						));
+					}
+					continue
+				}
+				if in_chain.contains(&(255, idx)) {
+					continue
+				}
+				match read_stored(&tables, 255, idx, true, has_rc) {
+					Ok(s) => live_heads.push((255, idx, s)),
+					Err(e) => out.push(("value-chain".into(), format!("col {col}: {e}"))),
+				}
+			}
+		}
+		if !out.is_empty() {
+			return out
+		}
+		// (c) no orphan value
+		for (tier, idx, _) in &live_heads {
+			if !addressed.contains(&(*tier, *idx)) {
+				out.push((
+					"value-orphan".into(),
+					format!("col {col} tier {tier:02x}: live value at slot {idx} is not referenced by any index entry"),
+				));
+				break
+			}
+		}
+		// (d) count
+		if let ColModel::Kv(m) = &ex.cur[col] {
+			if m.map.len() != live_heads.len() {
+				out.push((
+					"live-count".into(),
+					format!("col {col} [{}]: {} live value chains on disk, model has {} live keys", kind.name(), live_heads.len(), m.map.len()),
+				));
+			}
+			// (e) every live key reachable through an index, resolving to an entry with its key
+			for key in m.map.keys() {
+				if uniform && key.len() < 32 {
+					continue
+				}
+				let h = hash_key(key, &salt, uniform);
+				let mut found = false;
+				'ix: for ix in indexes.iter().rev() {
+					for (tier, off) in ix.lookup(&h) {
+						if let Ok(s) = read_stored(&tables, tier, off, true, has_rc) {
+							if s.key26.as_deref() == Some(&h[6..32]) {
+								found = true;
+								break 'ix
+							}
+						}
+					}
+				}
+				if !found {
+					out.push((
+						"key-unreachable".into(),
+						format!("col {col}: live key {} cannot be reached through any index file", hex(&key[..key.len().min(8)])),
+					));
+					break
+				}
+			}
+		}
+	}
+	out
 }
